@@ -802,6 +802,13 @@ Proof.
       apply (decode_members_presents ty val enc dec); [exact H | apply (canonical_presents ty val enc dec); assumption].
 Qed.
 
+Theorem client_params_text ps args : ps <> [] -> args_ok ps args ->
+  client_params PArray ps args = Builder.TOk (Some (ser (JArr (args_json ps args)))) /\
+  (names_utf8 ps -> client_params PMap ps args = Builder.TOk (Some (ser (JObj (args_members ps args))))).
+Proof.
+  intros N H. split; [exact (client_params_array ty val enc dec ps args N H) | intro U; exact (client_params_map ty val enc dec ps args N U H)].
+Qed.
+
 (* any array text whose elements are the arguments (any whitespace, surplus elements) *)
 Theorem positional_any_text ps args raw extra : args_ok ps args ->
   parse_text raw = Some (JArr (args_json ps args ++ extra)) ->
@@ -828,10 +835,12 @@ Proof.
   - rewrite <- (app_nil_r (args_json _ _)) in P1. apply (positional_any_text _ _ _ [] Hall P1).
   - destruct (pf ++ pt) as [|q0 qs] eqn:Eq.
     + apply app_eq_nil in Eq as [-> ->]. inversion H; subst. reflexivity.
-    + rewrite <- Eq in *. rewrite (server_decode_array ty val dec _ raw_short _ ltac:(rewrite Eq; discriminate) P2).
+    + assert (N : q0 :: qs <> []) by discriminate. rewrite <- Eq in *.
+      rewrite (server_decode_array ty val dec (pf ++ pt) raw_short _ N P2).
       apply (collect_spec_omitted ty val enc dec); assumption.
-  - intros ->. inversion H; subst. cbn [app]. destruct pt as [|q0 qs] eqn:Eq; [reflexivity|]. rewrite <- Eq in *.
-    rewrite (server_decode_absent ty val dec pt ltac:(rewrite Eq; discriminate)). apply (collect_exhausted ty val dec), Hp.
+  - intros ->. inversion H; subst. cbn [app]. destruct pt as [|q0 qs] eqn:Eq; [reflexivity|].
+    assert (N : q0 :: qs <> []) by discriminate. rewrite <- Eq in *.
+    rewrite (server_decode_absent ty val dec pt N). apply (collect_exhausted ty val dec), Hp.
 Qed.
 
 (* by name: any keys, any order, unknown members, absent optionals left out or null *)
@@ -928,7 +937,7 @@ Theorem stub_call_reaches_method (a : api ty) i m (id : Wire.id) args :
 Proof.
   intros ND Hm Wi Un H Hk. destruct (names_resolve ty a ND) as (R1 & _ & _).
   apply (request_reaches a id _ _ _ _ (method_binding i m)); try assumption.
-  - apply (R1 i m Hm).
+  - apply (proj1 (R1 i m Hm)).
   - apply params_of_method, Hm.
 Qed.
 
@@ -942,8 +951,57 @@ Theorem stub_call_reaches_subscription (a : api ty) j s (id : Wire.id) args :
 Proof.
   intros ND Hs Wi Un H Hk. destruct (names_resolve ty a ND) as (_ & R2 & _).
   apply (request_reaches a id _ _ _ _ (sub_binding a j)); try assumption.
-  - apply (R2 j s Hs).
+  - apply (proj1 (R2 j s Hs)).
   - apply params_of_sub, Hs.
 Qed.
 
 End Composition.
+
+(* ====================================================================== *)
+(* 5. the hypotheses are needed; decidable side conditions                *)
+(* ====================================================================== *)
+
+Fixpoint distinctb (l : list bytes) : bool :=
+  match l with [] => true | x :: r => negb (existsb (bytes_eqb x) r) && distinctb r end.
+
+Lemma distinctb_nodup l : distinctb l = true -> NoDup l.
+Proof.
+  induction l as [|x r IH]; intro H; [constructor|]. cbn [distinctb] in H. apply andb_true_iff in H as [H1 H2].
+  constructor; [|apply IH, H2]. intro Hin. apply negb_true_iff in H1.
+  assert (E : existsb (bytes_eqb x) r = true) by (apply existsb_exists; exists x; split; [exact Hin | apply bytes_eqb_refl]).
+  congruence.
+Qed.
+
+(* collide(a_b: u8, aB: u8) with param_kind = map: snake_case(aB) = a_b and lowerCamelCase(a_b) = aB, every key is owned by
+   the first field; the stub's own object is rejected (duplicate field) *)
+Definition collide_params : list (param jty) :=
+  [Param b#"a_b" None false (TyUInt 255); Param b#"aB" None false (TyUInt 255)].
+
+Theorem collision_refuted :
+  exists (ps : list (param jty)) (args : list (option json)) (t : bytes),
+    args_ok jty json jenc jdec ps args /\ names_utf8 jty ps /\ params_distinct ps = false /\
+    client_params jty json jenc PMap ps args = Builder.TOk (Some t) /\
+    server_decode jty json jdec ps (Params.params_new (Some t)) = DErr (-32602)%Z.
+Proof.
+  exists collide_params, [Some (JNum (NPos 1)); Some (JNum (NPos 2))]. eexists.
+  split; [|split; [|split; [|split]]].
+  - repeat constructor; try (cbn; lia); discriminate.
+  - repeat constructor.
+  - vm_compute. reflexivity.
+  - vm_compute. reflexivity.
+  - vm_compute. reflexivity.
+Qed.
+
+(* optopt(a: Option<Option<u8>>): the payload Some(None) is a value of the type Option<u8> that serialises to null *)
+Theorem null_payload_refuted :
+  exists (ps : list (param jty)) (v : json) (t : bytes),
+    ps = [Param b#"a" None true (TyOption (TyUInt 255))] /\
+    val_ok jty json jenc jdec (TyOption (TyUInt 255)) v /\
+    client_params jty json jenc PArray ps [Some v] = Builder.TOk (Some t) /\
+    server_decode jty json jdec ps (Params.params_new (Some t)) = DOk [None].
+Proof.
+  eexists. exists JNull. eexists. split; [reflexivity|]. split; [|split].
+  - split; [reflexivity|]. split; [cbn; lia | reflexivity].
+  - vm_compute. reflexivity.
+  - vm_compute. reflexivity.
+Qed.
